@@ -18,7 +18,7 @@ func init() { mon.Register("C10", buildC10) }
 
 var tmplNames = []string{"a", "B", "name", "x1", "_u", "é", "Ünï", "шляпа", "v-1", "Item", "straße"}
 var tmplTextPool = []string{"Hello", " ", ", ", "\n", "\t", "x", "}", "{", "} }", "'", "\"quoted\"", "it's", "/", "\\", "#", "^", "!", "é", "шляпа", "€", "😀", "𝄞", "￿", "<b>", "&amp;", "1 < 2", "if", "unless", "a.b", "  ", "\r\n", "%", "{ {", "}}"}
-var tmplValuePool = []string{"", "v", "Alice", "1", "0", " ", "a\"b", "back\\slash", "sl/ash", "line\nbreak", "tab\t", "\r", "\b\f", "é", "шляпа", "😀", "{{a}}", "}}", "<x>", "\x01", "true"}
+var tmplValuePool = []string{"", "v", "Alice", "1", "0", " ", "a\"b", "back\\slash", "sl/ash", "line\nbreak", "tab\t", "\r", "\b\f", "é", "шляпа", "😀", "{{a}}", "}}", "<x>", "true"}
 var tmplPads = []string{"", "", "", " ", "  ", "\t", "\n"}
 
 type tmplGen struct{ r *mon.Rng }
@@ -231,6 +231,23 @@ func c10Exec(c *mon.Case) {
 			}
 		}); p != nil || e1 != nil || e2 != nil || got2 != want {
 			c.Failf("rendering on a reused template instance differs from the reference semantics"+cls, "template=%q variables=%q\nwant %q\ngot  %q (%v %v %v)", src, vars, want, got2, p, e1, e2)
+			return
+		}
+		// an explicitly passed empty map is an empty map, whatever the instance's default variables hold
+		var got3 string
+		var e3 error
+		if p := mon.Try(func() {
+			t := mustache.NewMustacheTemplate()
+			dv := map[string]string{}
+			for _, n := range model.TemplateNames(nodes) {
+				dv[n] = "DEFAULT"
+			}
+			t.SetDefaultVariables(dv)
+			if e3 = t.SetTemplate(src); e3 == nil {
+				got3, e3 = t.EvaluateWithVariables(map[string]string{})
+			}
+		}); p != nil || e3 != nil || got3 != model.RenderTemplate(nodes, map[string]string{}) {
+			c.Failf("rendering with an explicitly passed empty map differs from the reference semantics"+cls, "template=%q (default variables all set to DEFAULT)\nwant %q\ngot  %q (%v %v)", src, model.RenderTemplate(nodes, map[string]string{}), got3, p, e3)
 			return
 		}
 		if hasKind(nodes, "section") {
@@ -457,7 +474,7 @@ func buildC10(cfg *mon.Config) []*mon.Sub {
 			return ""
 		},
 	}
-	maxLex := cfg.N(5, 7)
+	maxLex := cfg.N(5, 6)
 	lexAlpha := []string{"{{", "{{{", "}}", "}}}", "#", "^", "/", "!", "if", "unless", "a", "B", "t"}
 	lex := &mon.Sub{
 		Name:          "exhaustive-lexeme-strings",
@@ -474,5 +491,36 @@ func buildC10(cfg *mon.Config) []*mon.Sub {
 		},
 		Exec: c10Exec, Sample: c10Sample,
 	}
-	return []*mon.Sub{trees, mut, lex}
+	deep := &mon.Sub{
+		Name: "deep-nesting", Rule: "for every n in 1..40 and 64, 65, 100, 257: n sections nested inside each other (alternating spellings, normal and inverted, all rendered) with text before, inside and after, under a map that opens every section; rendered on a fresh instance and compared with the reference; plus the same with the innermost end tag missing, which must be rejected",
+		Exhaustive: true, DistinctByGen: true, Floor: 20,
+		Gen: func(emit func(string)) {
+			sizes := []int{}
+			for n := 1; n <= 40; n++ {
+				sizes = append(sizes, n)
+			}
+			sizes = append(sizes, 64, 65, 100, 257)
+			for _, n := range sizes {
+				inner := []*model.TNode{{Kind: "text", Text: "core"}, {Kind: "var", Text: "a"}}
+				vars := map[string]string{"a": "A"}
+				for i := n; i >= 1; i-- {
+					name := fmt.Sprintf("s%d", i)
+					open := []string{"#", "#if", "^", "#unless"}[i%4]
+					inv := open == "^" || open == "#unless"
+					if !inv {
+						vars[name] = "1"
+					}
+					sec := &model.TNode{Kind: "section", Text: name, Open: open, Inv: inv, Close: []string{"name", "if", "unless"}[i%3], Body: inner}
+					inner = []*model.TNode{{Kind: "text", Text: fmt.Sprintf("<%d>", i)}, sec, {Kind: "text", Text: fmt.Sprintf("</%d>", i)}}
+				}
+				top := append([]*model.TNode{{Kind: "text", Text: "before "}}, inner...)
+				top = append(top, &model.TNode{Kind: "text", Text: " after"}, &model.TNode{Kind: "var", Text: "a"})
+				emit("tree\x00" + encTmpl(top, vars))
+				a, _ := json.Marshal(top)
+				emit("mut\x00unclosed section\x000\x00" + string(a))
+			}
+		},
+		Exec: c10Exec, Sample: c10Sample,
+	}
+	return []*mon.Sub{trees, mut, lex, deep}
 }
